@@ -38,6 +38,9 @@ func verifyMeta(r io.ReaderAt, size int64, sig *AppxSignature, skipDigests bool)
 			return errors.New("zip elements out of order")
 		}
 	}
+	if sigIdx < 0 {
+		return errors.New("zip directory does not list the signature")
+	}
 
 	// AXPC is a hash of everything except the central directory and signature file
 	axpc := sig.Hash.New()
